@@ -4,7 +4,18 @@ FILE *bvp_out;
 jmp_buf bvp_jmp;
 int bvp_jmp_armed = 0;
 
-static struct op_entry *tables[] = { ops_bits, NULL };
+static int op_reset(int argc, char **argv)
+   {
+   (void)argc; (void)argv;
+   bits_reset();
+   bufr_set_debug(0);
+   bufr_set_verbose(0);
+   fputs("ok", bvp_out);
+   return 0;
+   }
+static struct op_entry ops_core[] = { { "reset", op_reset }, { NULL, NULL } };
+
+static struct op_entry *tables[] = { ops_core, ops_bits, NULL };
 
 int bvp_parse_hex(const char *s, unsigned char **out)
    {
